@@ -111,6 +111,13 @@ class InterpBase:
 
   def branch(self, cond):
     if self.spec_mode:
+      if isinstance(cond, bool):
+        return cond
+      c = z3.simplify(cond)
+      if z3.is_true(c):
+        return True
+      if z3.is_false(c):
+        return False
       raise Unsupported('branch in spec mode')
     return self.ex.branch(cond)
 
@@ -390,6 +397,23 @@ class InterpBase:
       return none_obj
     if isinstance(v, VExc) and v.sym is not None:
       return v.sym
+    if isinstance(v, VStr) and v.s is not None:      # a string constant as an object: one constant per text
+      return self.str_obj(v.s)
+    if isinstance(v, VTuple) and not v.items:
+      return z3.Const('obj.empty_tuple', Obj)
+    if isinstance(v, VObj) and v.frozen and v.cls in self.reg.value_classes:
+      # frozen dataclass compared and hashed by value: an injective constructor over its fields
+      names = list(self.reg.value_classes[v.cls])
+      args = [self.to_obj(self.getfield(v, n)) for n in names]
+      mk = z3.Function(f'mk_{v.cls}', *([Obj] * (len(names) + 1)))
+      done = getattr(self, '_value_axioms', None)
+      if done is None:
+        done = self._value_axioms = set()
+      if v.cls not in done:          # injectivity, once per path: every field is a projection of the constructor
+        done.add(v.cls)
+        xs = [z3.Const(f'{v.cls}!x{i}', Obj) for i in range(len(names))]
+        self.assume(z3.ForAll(xs, z3.And([z3.Function(f'{v.cls}_{n}', Obj, Obj)(mk(*xs)) == x for n, x in zip(names, xs)])))
+      return mk(*args)
     if isinstance(v, VObj):         # heap objects: one identity constant each, pairwise distinct
       if '__id__' not in v.f:
         t = z3.Const(self.path.fresh_name(f'id.{v.cls}'), Obj)
@@ -411,6 +435,17 @@ class InterpBase:
     if isinstance(v, VOpt):
       return z3.If(v.isnone, none_obj, self.to_obj(v.val))
     raise Unsupported(f'to_obj({type(v).__name__})')
+
+  def str_obj(self, text):
+    known = getattr(self, '_str_objs', None)
+    if known is None:
+      known = self._str_objs = {}
+    if text not in known:
+      t = z3.Const(f'str.{text}', Obj)
+      for other in known.values():
+        self.assume(t != other)
+      known[text] = t
+    return known[text]
 
   def wrap(self, kind, t):
     if kind in ('int', 'nat'):
